@@ -8,6 +8,7 @@ EXPLAINED = {
     "file-name-contains-double-slash": "F16",
     "repeated-point-at-segment-start": "F17",
     "node-sample-file-name": "F18",
+    "computed-length-above-parse-limit": "F20",
 }
 
 
